@@ -329,6 +329,13 @@ func classAddr() FInput {
 	t(macB, 1000, 80, 4)    // first record: SynReceived -> Listen
 	t(macB, 1000, 80, 4)    // Listen, RST: nothing
 	t(macA, 1000, 1000, 18) // both ports equal one of the record's: knock tcp/1000 for macA
+	// SYNs whose port pairs mirror each other / are equal: each is a new record and a knock
+	s = g.sip()
+	t(macB, 40000, 80, 2)
+	t(macB, 80, 40000, 2)
+	t(macB, 7000, 7000, 2)
+	t(macB, 80, 7000, 2)
+	t(macB, 40000, 40000, 2)
 	return FInput{Class: "addresses-ethertype-arp-tcp-records", Frames: g.frames, Ticks: 3}
 }
 
@@ -403,7 +410,7 @@ func runFrames(in FInput) (ob SObs, crash string) {
 	if gw.stalled() {
 		return ob, slowBurst
 	}
-	ob.Ticks, crash = collect(rec, marker, in.Ticks, "")
+	ob.Ticks, crash = collect(rec, 0, marker, in.Ticks, "")
 	return ob, crash
 }
 
